@@ -144,3 +144,28 @@ Proof.
     apply andb_true_iff in Hpl as [-> Hpl]. now apply IH. }
   rewrite !forallb_app. cbn [forallb]. rewrite (forallb_firstn _ _ _ HE), Hp, Htr, marker_clean, (forallb_skipn _ _ _ HE). reflexivity.
 Qed.
+
+(* ------------------------------------------------------------------ byte level: nothing of the old file is rewritten *)
+(* Whatever the file contains (block scalars, quoted text, anything - no YAML assumption at all): the merged text is the old
+   text with new lines put in at ONE place; every old line is byte-identical, except that in append mode the white space at the
+   end of the file (trailing blank lines, trailing spaces of the last line) is removed. *)
+Inductive raw_spliced (E R : list string) : Prop :=
+| RawAppend ins : R = rstrip_doc E ++ ins -> raw_spliced E R
+| RawInsert pre ins post : E = pre ++ post -> R = pre ++ ins ++ post -> raw_spliced E R.
+
+Lemma merge_raw_spliced q E ms : ms <> [] -> forallb sec_wf ms = true ->
+  raw_spliced E (merge_lines q E (join_texts section_join_newlines (map snd ms))).
+Proof.
+  intros Hne Hwf. assert (Hne' : map snd ms <> []) by (destruct ms; [contradiction|discriminate]).
+  rewrite (join_texts_concat _ Hne').
+  assert (Happ : raw_spliced E (append_text E (List.concat (map snd ms)))).
+  { rewrite append_text_eq. now apply (RawAppend _ _ ([EmptyString] ++ List.concat (map snd ms) ++ [EmptyString])). }
+  unfold merge_lines. destruct (find_marker E 0) as [[[i pos] p]|] eqn:Hf; [|exact Happ].
+  destruct (cmp_nat insert_pos_cmp pos insert_pos_bound && _); [|exact Happ].
+  destruct ms as [|s ms]; [contradiction|]. cbn [forallb] in Hwf. apply andb_true_iff in Hwf as [Hs _].
+  destruct (sec_wf_facts s Hs) as ((tr & Ht) & _). cbn [map List.concat]. rewrite Ht.
+  change ((marker_line1 :: tr) ++ ?x) with (marker_line1 :: (tr ++ x)). rewrite insert_text_eq.
+  pose proof (find_marker_spec _ _ _ _ _ Hf) as Hn. destruct (nth_error_split _ _ _ Hn) as [H1 H2].
+  apply (RawInsert _ _ (firstn (S i) E) ((tr ++ List.concat (map snd ms)) ++ [EmptyString; marker_line1]) (skipn (S i) E)); [exact H2|].
+  rewrite H1. now rewrite <- !app_assoc.
+Qed.
